@@ -1,6 +1,8 @@
 import UgoVerif.VM.Invoke
 import UgoVerif.Gen.VmFields
 import UgoVerif.Proofs.InvokeShift
+import UgoVerif.Proofs.ShiftLoop
+import UgoVerif.Proofs.GlobalsKeep
 /-
   C14 — calling a script function from Go (Invoker) equals calling it inside the script.
 
@@ -319,10 +321,10 @@ theorem arity_rejected_lenient (c p : State) (fa ci : Nat) (free : Option (List 
     exact ⟨_, callCompiled_variadic_arity_error fa args.length p _ free hcell hv (by omega)⟩
 
 /-- **prologue_eq_callbind.**  The whole entries: the child's `prologue` (`Run` up to the loop) and the
-    parent's `xOpCallCompiled` leave states related by the offset relation `ShB bp k NumLocals`
-    (Proofs/Shift.lean): same heap, code memory, constants, globals, module cache; `ip = -1` on both;
-    child frame 0 / base 0 / `sp = NumLocals` against parent frame k / base bp / `sp = bp + NumLocals`;
-    `child.stack[i] = parent.stack[bp+i]` for `i < NumLocals`. -/
+    parent's `xOpCallCompiled` leave states related by the offset relation `ShB T0 bp k 0` (Proofs/Shift.lean,
+    depth 0: both are in the invoked function's own frame): same heap, code memory, constants, globals, module
+    cache; `ip = -1` on both; child frame 0 / base 0 / `sp = NumLocals` against parent frame k / base bp /
+    `sp = bp + NumLocals`; no handlers; `child.stack[i] = parent.stack[bp+i]` for `i < NumLocals`. -/
 theorem prologue_eq_callbind (c p : State) (fa ci : Nat) (free : Option (List Addr)) (args : List V)
     (hfn : p.heap[fa]? = some (.fn ci free))
     (hheap : c.heap = p.heap) (hcodes : c.codes = p.codes) (hconsts : c.consts = p.consts)
@@ -338,7 +340,7 @@ theorem prologue_eq_callbind (c p : State) (fa ci : Nat) (free : Option (List Ad
     (hnl : (p.codes[ci]!).numParams ≤ (p.codes[ci]!).numLocals) :
     ∃ c' p', exec (prologue p.globals args) c = (.ok (), c') ∧
       exec (callCompiled fa args.length 0) p = (.ok (.ok ()), p') ∧
-      ShB (p.sp - args.length).toNat p.frameIndex.toNat (p.codes[ci]!).numLocals c' p' :=
+      ShB p' (p.sp - args.length).toNat p.frameIndex.toNat 0 c' p' ∧ c'.sp = (p.codes[ci]!).numLocals :=
   entries_shifted c p fa ci free args hfn hheap hcodes hconsts hmods hnm hmain hfull hg herr hshc hshp hargs hacc hself
     hfi hbp hsp hroom hnl
 
@@ -353,7 +355,7 @@ def exP : State :=
     frameIndex := 1, globals := .undefined }
 
 example : ∃ c' p', exec (prologue exP.globals []) exP = (.ok (), c') ∧
-    exec (callCompiled 0 (([] : List V).length) 0) exP = (.ok (.ok ()), p') ∧ ShB 0 1 0 c' p' := by
+    exec (callCompiled 0 (([] : List V).length) 0) exP = (.ok (.ok ()), p') ∧ ShB p' 0 1 0 c' p' ∧ c'.sp = (0 : Nat) := by
   have hfr : (exP.frames[exP.curFrame]!).fn ≠ some 0 := by
     show (Array.replicate frameSize ({} : Frame))[0]!.fn ≠ some 0
     rw [emptyFrames_zero]; simp
@@ -370,63 +372,115 @@ theorem acquire_meets_prologue (root caller child : State) (fa : Addr)
     c.numModules = caller.numModules ∧ c.mainFn = fa := by
   simp [acquireFrom, hc, hm, hn]
 
-/-! ### `frame_shift_partial` -/
+/-! ### `frame_shift`: the simulation between the child and the callee's frames in the parent -/
 
-/-- **frame_shift_partial.**  One instruction of the child (frame 0, base 0) and one instruction of the
-    parent inside the callee's frame (frame k, base bp) from `ShB`-related states, when the fetched
-    opcode is one of the 36 `coveredOps` (all but CALL, CALLNAME, RETURN, THROW, SETUPTRY, SETUPCATCH,
-    SETUPFINALLY, FINALIZER) and, for GETLOCAL / SETLOCAL / GETLOCALPTR, its operand is below
-    `L = NumLocals`, for MAP its operand is even (`StepOk`): if both `step`s end normally then EITHER both continue (`.next`)
-    and the states are `ShB`-related again, OR the child's loop returns with `vm.err` set — an uGO
-    error raised by the instruction, which nobody in the (handler-free) callee catches.  No claim when a
-    side ends with a Go panic or leaves the modelled subset: the child has `bp` more stack slots and
-    `k` more frames than the callee's frame in the parent, so resource panics cannot coincide. -/
-theorem frame_shift_partial (F : FloatOps) (bp k L : Nat) (s t : State) (h : ShB bp k L s t) (hok : StepOk L s)
+/-- **frame_shift.**  One instruction — ANY opcode, all 44 of opcodes.go and unknown ones — of the child and of the
+    parent from `ShB T0 bp k d`-related states: the invoked function runs in the child's frame 0 / base 0 and in the
+    parent's frame `k` / base `bp`; both VMs are `d ≥ 0` frames above it (nested calls), frame `j` of the child
+    corresponding to frame `k + j` of the parent: same function, free variables, saved `ip`, base pointer shifted
+    by `bp`, handler stacks equal up to the shift of the recorded `sp`; equal heap, code, constants, globals, module
+    cache, `ip`; `child.stack[i] = parent.stack[bp+i]` on a region containing both stack pointers.
+    Hypotheses: `StepOk` on the child's instruction (a local-slot operand addresses a slot below `sp`; MAP has an even
+    operand; CALL / CALLNAME have no spread argument) and `CallRoom` (when the instruction is a call, the PARENT has a
+    free frame: otherwise it answers StackOverflowError where the child still has `k` frames left).
+    If both `step`s end normally (Go panics / `unsupported` are not compared: the child has `bp` more stack slots)
+    then one of:
+    * both continue (`.next`) in `ShB T0 bp k d'`-related states — `d' = d`, `d + 1` (CALL / CALLNAME of a compiled
+      function, also the running function itself; a self tail call reuses the frame: `d' = d`), `d - 1` (RETURN of a
+      nested call), or the depth of the frame whose handler caught a thrown error;
+    * the child's loop returns with `vm.err = e` (an uGO error no handler of the function's frame or of a frame above
+      it takes) and the parent's instruction ended as the frame search BELOW frame `k` ends (`EscQ`);
+    * both loops return with the same Go error (unknown opcode, malformed THROW operand);
+    * the invoked function RETURNed (`d = 0`): the child's loop returns without error, the parent is back in the
+      caller's frame `k - 1` with `sp = bp`, and `child.stack[sp-1] = parent.stack[sp-1]` (`RetQ`). -/
+theorem frame_shift (F : FloatOps) (T0 : State) (bp k d : Nat) (hk : 1 ≤ k) (hbp : 1 ≤ bp) (s t : State) (h : ShB T0 bp k d s t)
+    (hok : StepOk s) (hroom : CallRoom s t)
     (r r' : Ctl) (s' t' : State) (h1 : exec (step F) s = (.ok r, s')) (h2 : exec (step F) t = (.ok r', t')) :
-    (r = .next ∧ r' = .next ∧ ShB bp k L s' t') ∨ (r = .ret ∧ s'.err ≠ none) :=
-  UgoVerif.Proofs.Shift.frame_shift_partial F s t ⟨h, hok⟩ r s' r' t' h1 h2
+    (r = .next ∧ r' = .next ∧ ∃ d', ShB T0 bp k d' s' t') ∨
+    (r = .ret ∧ ∃ e, s'.err = some (.rt e) ∧ EscQ T0 bp k e r' s' t') ∨
+    (r = .ret ∧ r' = .ret ∧ (∃ m, s'.err = some (.goerr m) ∧ t'.err = some (.goerr m)) ∧
+      s'.heap = t'.heap ∧ s'.globals = t'.globals ∧ s'.modules = t'.modules) ∨
+    RetQ T0 bp k r r' s' t' := by
+  rcases UgoVerif.Proofs.Shift.frame_shift F hk hbp s t ⟨h, hok, hroom⟩ r s' r' t' h1 h2 with (h | h | h) | h
+  · exact Or.inl h
+  · exact Or.inr (Or.inl h)
+  · exact Or.inr (Or.inr (Or.inl h))
+  · exact Or.inr (Or.inr (Or.inr h))
 
-/-- **steps_shift_partial.**  `frame_shift_partial` iterated over any number `n` of instructions
-    (`runSteps`: the loop body repeated; `CoveredRun`: every instruction the child executes on the way
-    satisfies `StepOk`): if neither VM panicked or left the model, both are still running in `ShB`-related
-    states — equal heap, globals, module cache, `child.stack[i] = parent.stack[bp+i]` — or the child has
-    stopped with `vm.err` set. -/
-theorem steps_shift_partial (F : FloatOps) (bp k L n : Nat) (s t : State) (h : ShB bp k L s t)
-    (hc : CoveredRun F L n s) (r r' : Ctl) (s' t' : State)
-    (h1 : runSteps F n s = some (r, s')) (h2 : runSteps F n t = some (r', t')) :
-    (r = .next ∧ r' = .next ∧ ShB bp k L s' t') ∨ (r = .ret ∧ s'.err ≠ none) :=
-  UgoVerif.Proofs.Shift.steps_shift_partial F n s t h hc r s' r' t' h1 h2
+/-- **throw_shift_partial** (the boundary of the simulation under a thrown error).  `vm.throw(e)` — from THROW, from the
+    re-throw after `finally`, from any failing instruction (`failWith`) — in `Sh`-related states, with ANY two fuels
+    (the model's `throwFuel` counts all frames, so the two sides get different ones).  If both end normally:
+    * a handler in the function's frame or in a frame above it takes the error ON BOTH SIDES: same handler, `ip`
+      set to its catch / finally position, `sp` reset to the `sp` it recorded (shifted by `bp` in the parent), the
+      frames above the handling frame dropped: `ShB T0 bp k d'` again, `d'` the depth of the handling frame; or
+    * there is none: the child's `throw` returns `e` (→ `vm.err`, `Run` returns it to the Go caller) and the parent's
+      `throw` ended as `throwBelow n'' k e` — the search for a handler in frames `k-1, k-2, …, 0` — ends from a state
+      `u` with the child's heap, globals and module cache.  Below this boundary the two sides legitimately differ
+      (the Go caller of `Invoke` gets the error; the in-script caller's frames are searched). -/
+theorem throw_shift_partial (T0 : State) (bp k d H N : Nat) (a : Int) (e : Addr) (n n' : Nat) (s t : State)
+    (h : Sh T0 bp k d H N a s t) (ha : a ≤ N) (hH : H ≤ N) (r r' : Option Addr) (s' t' : State)
+    (h1 : exec (throwF n e) s = (.ok r, s')) (h2 : exec (throwF n' e) t = (.ok r', t')) :
+    (r = none ∧ r' = none ∧ ∃ d', ShB T0 bp k d' s' t') ∨
+    (r = some e ∧ s'.err = none ∧ ∃ n'' u, u.heap = s'.heap ∧ u.globals = s'.globals ∧ u.modules = s'.modules ∧
+      u.err = none ∧ (∀ j : Nat, j < k → u.frames[j]! = T0.frames[j]!) ∧ (∀ i : Nat, i + 1 < bp → u.stack[i]! = T0.stack[i]!) ∧
+      exec (throwBelow n'' k e) u = (.ok r', t')) :=
+  sh_throwF e n n' d H N a ha hH s t h r s' r' t' h1 h2
 
-/-- **return_shift.**  The RETURN of the callee from `ShB`-related states (`bp ≥ 1`, `k ≥ 1`; the fetched
-    opcode is RETURN): if both `step`s end normally, the child's loop returns (`.ret`, `vm.err` unset,
-    `frameIndex = 1`) and the parent continues in its caller's frame (`frameIndex = k`, `sp = bp`); heap,
-    globals and module cache are equal; and the slot the child's `Run` reads its result from,
-    `child.stack[sp-1]`, holds the same value as the slot where the parent's caller finds the call's
-    value, `parent.stack[sp-1]` (= the callee's slot `bp-1`). -/
-theorem return_shift (F : FloatOps) (bp k L : Nat) (hk : 1 ≤ k) (hbp : 1 ≤ bp) (s t : State) (h : ShB bp k L s t)
-    (hop : ∀ op s1, exec fetchOp s = (.ok op, s1) → op = OpReturn)
-    (r r' : Ctl) (s' t' : State) (h1 : exec (step F) s = (.ok r, s')) (h2 : exec (step F) t = (.ok r', t')) :
-    r = .ret ∧ r' = .next ∧ s'.heap = t'.heap ∧ s'.globals = t'.globals ∧ s'.modules = t'.modules ∧
+/-- **steps_shift.**  `frame_shift` iterated while the child's loop goes on: after `m` instructions of the child that
+    all continued, the parent (if it did not panic / leave the model) also continued `m` times and the states are
+    related again (at some depth). -/
+theorem steps_shift (F : FloatOps) (T0 : State) (bp k : Nat) (hk : 1 ≤ k) (hbp : 1 ≤ bp) (m j : Nat) (s t : State)
+    (h : ∃ d, ShB T0 bp k d s t) (hok : OkRun F (m + j) s t)
+    (s0 : State) (h1 : runSteps F m s = some (.next, s0)) (r0 : Ctl) (t0 : State) (h2 : runSteps F m t = some (r0, t0)) :
+    r0 = .next ∧ (∃ d, ShB T0 bp k d s0 t0) ∧ OkRun F j s0 t0 :=
+  UgoVerif.Proofs.Shift.steps_shift F hk hbp m j s t h hok s0 h1 r0 t0 h2
+
+/-- **invoke_eq_call_partial.**  The whole run of the invoked function.  `c` is the child as `_acquire` left it, `p` the
+    parent with callee and `args` on its stack (hypotheses of `prologue_eq_callbind`; `1 ≤ frameIndex`: the parent is
+    inside `Run`; `1 ≤ sp - #args`: the callee value lies below the arguments).  Both entries succeed; and for every
+    number of instructions `n` (`OkRun`: every instruction met on the way satisfies `StepOk` / `CallRoom`): if the
+    child's loop ENDS within `n` instructions — at its instruction `m + 1`, in state `c'` — then the parent, unless
+    it panicked / left the model before, is still running after `m` instructions, and its instruction `m + 1` ends
+    as `EndQ` says:
+    * the function returned: `c'.err = none`, the parent is back in the caller's frame (`frameIndex = k`,
+      `sp = bp`), equal heap / globals / module cache, and the slot `Run` reads its result from holds the value the
+      in-script caller finds in the call's slot (`result_value_deref` for the epilogue's dereference); or
+    * an error `e` left the function: `c'.err = e` (what `Invoke` returns) and the parent's instruction — the same
+      throwing instruction — ended as the handler search below frame `k` ends from a state with the child's heap,
+      globals and module cache (`EscQ`): the same error thrown at the call instruction of the caller; or
+    * both loops stopped with the same Go error (malformed bytecode). -/
+theorem invoke_eq_call_partial (F : FloatOps) (c p : State) (fa ci : Nat) (free : Option (List Addr)) (args : List V)
+    (hfn : p.heap[fa]? = some (.fn ci free))
+    (hheap : c.heap = p.heap) (hcodes : c.codes = p.codes) (hconsts : c.consts = p.consts)
+    (hmods : c.modules = p.modules) (hnm : c.numModules = p.numModules) (hmain : c.mainFn = fa)
+    (hfull : p.numModules ≤ p.modules.size) (hg : p.globals ≠ .nil) (herr : p.err = none)
+    (hshc : Shape c) (hshp : Shape p)
+    (hargs : argsOnStack p args.length = args)
+    (hacc : accepted (p.codes[ci]!).numParams (p.codes[ci]!).variadic args.length)
+    (hself : (p.frames[p.curFrame]!).fn ≠ some fa)
+    (hfi : 1 ≤ p.frameIndex ∧ p.frameIndex + 1 ≤ (frameSize : Int) - 1)
+    (hbp : 1 ≤ p.sp - args.length) (hsp : p.sp ≤ (stackSize : Int))
+    (hroom : p.sp - args.length + (p.codes[ci]!).numLocals ≤ (stackSize : Int))
+    (hnl : (p.codes[ci]!).numParams ≤ (p.codes[ci]!).numLocals) :
+    ∃ c0 p0, exec (prologue p.globals args) c = (.ok (), c0) ∧
+      exec (callCompiled fa args.length 0) p = (.ok (.ok ()), p0) ∧
+      ∀ n, OkRun F n c0 p0 → ∀ c', runSteps F n c0 = some (.ret, c') →
+        ∃ m cm, m < n ∧ runSteps F m c0 = some (.next, cm) ∧ exec (step F) cm = (.ok .ret, c') ∧
+          ∀ r0 pm, runSteps F m p0 = some (r0, pm) → r0 = .next ∧
+            ∀ r' p', exec (step F) pm = (.ok r', p') →
+              EndQ p0 (p.sp - args.length).toNat p.frameIndex.toNat r' c' p' := by
+  obtain ⟨c0, p0, h1, h2, hsh, _⟩ := prologue_eq_callbind c p fa ci free args hfn hheap hcodes hconsts hmods hnm hmain hfull hg
+    herr hshc hshp hargs hacc hself ⟨by omega, hfi.2⟩ (by omega) hsp hroom hnl
+  refine ⟨c0, p0, h1, h2, ?_⟩
+  intro n hok c' hc'
+  exact UgoVerif.Proofs.Shift.invoke_eq_call_partial F (by omega) (by omega) n c0 p0 ⟨0, hsh⟩ hok c' hc'
+
+/-- what `EndQ` says when the function returned, spelled out (`return_shift`) -/
+theorem return_shift (T0 : State) (bp k : Nat) (r' : Ctl) (s' t' : State) (h : RetQ T0 bp k .ret r' s' t') :
+    r' = .next ∧ s'.heap = t'.heap ∧ s'.globals = t'.globals ∧ s'.modules = t'.modules ∧
     s'.err = none ∧ t'.err = none ∧ s'.frameIndex = 1 ∧ t'.frameIndex = k ∧ t'.sp = bp ∧ 1 ≤ s'.sp ∧
-    s'.stack[(s'.sp - 1).toNat]! = t'.stack[(t'.sp - 1).toNat]! :=
-  UgoVerif.Proofs.Shift.return_shift F hk hbp s t ⟨h, hop⟩ r s' r' t' h1 h2
-
-/-- **call_return_partial.**  A whole body inside the covered fragment: `n` covered instructions followed by
-    the callee's RETURN.  From `ShB`-related states (as `prologue_eq_callbind` provides), if neither VM panics
-    or leaves the model and the child meets no uGO error on the way, then after the RETURN the child's loop
-    has returned without error, the parent is back in its caller's frame, heap, globals and module cache are
-    equal, and the child's result slot equals the parent's call-value slot. -/
-theorem call_return_partial (F : FloatOps) (bp k L n : Nat) (hk : 1 ≤ k) (hbp : 1 ≤ bp) (s t : State)
-    (h : ShB bp k L s t) (hc : CoveredRun F L n s) (s1 t1 : State) (r1 : Ctl)
-    (h1 : runSteps F n s = some (.next, s1)) (h2 : runSteps F n t = some (r1, t1))
-    (hop : ∀ op u, exec fetchOp s1 = (.ok op, u) → op = OpReturn)
-    (r r' : Ctl) (s' t' : State) (h3 : exec (step F) s1 = (.ok r, s')) (h4 : exec (step F) t1 = (.ok r', t')) :
-    r = .ret ∧ r' = .next ∧ s'.heap = t'.heap ∧ s'.globals = t'.globals ∧ s'.modules = t'.modules ∧
-    s'.err = none ∧ t'.err = none ∧ s'.frameIndex = 1 ∧ t'.frameIndex = k ∧ t'.sp = bp ∧ 1 ≤ s'.sp ∧
-    s'.stack[(s'.sp - 1).toNat]! = t'.stack[(t'.sp - 1).toNat]! := by
-  rcases steps_shift_partial F bp k L n s t h hc .next r1 s1 t1 h1 h2 with ⟨_, _, hsh⟩ | ⟨hr, _⟩
-  · exact return_shift F bp k L hk hbp s1 t1 hsh hop r r' s' t' h3 h4
-  · cases hr
+    s'.stack[(s'.sp - 1).toNat]! = t'.stack[(t'.sp - 1).toNat]! ∧ t'.stack.size = stackSize ∧
+    (∀ j : Nat, j < k → t'.frames[j]! = T0.frames[j]!) ∧ (∀ i : Nat, i + 1 < bp → t'.stack[i]! = T0.stack[i]!) := h.2
 
 /-- **result_value_deref** (the epilogue).  `Run` returns `stack[sp-1]` unless it is an `*ObjectPtr`, which
     it dereferences (vm.go:166-170) — the in-script caller gets the slot value as it is.  So after
@@ -441,29 +495,47 @@ theorem result_value_deref (s : State) (hsp : 1 ≤ s.sp ∧ s.sp ≤ (stackSize
   ⟨resultValue_of_slot s hsp, fun a w hv hw => resultValue_of_box s hsp a w hv hw⟩
 
 /-- what `ShB` says about the observable state: same heap, globals and module cache -/
-theorem shB_observables (bp k L : Nat) (s t : State) (h : ShB bp k L s t) :
+theorem shB_observables (T0 : State) (bp k d : Nat) (s t : State) (h : ShB T0 bp k d s t) :
     s.heap = t.heap ∧ s.globals = t.globals ∧ s.modules = t.modules ∧ s.ip = t.ip ∧ t.sp = s.sp + bp := by
-  obtain ⟨N, a, h, _, _⟩ := h
+  obtain ⟨H, N, a, h, _, _⟩ := h
   exact ⟨h.heap, h.globals, h.modules, h.ip, by rw [h.spT, h.spS]⟩
 
-/-- the opcode list of `frame_shift_partial`, by number (opcodes.go) -/
+/-- the opcodes that touch neither frames nor handlers (Proofs/ShiftOps), by number (opcodes.go); the other eight —
+    CALL 2, CALLNAME 43, RETURN 39, THROW 37, SETUPTRY 34, SETUPCATCH 35, SETUPFINALLY 36, FINALIZER 38 — are in
+    Proofs/ShiftCall, ShiftRet, ShiftTry -/
 theorem coveredOps_eq : coveredOps =
     [0, 1, 3, 4, 5, 6, 7, 8, 9, 10, 11, 12, 13, 14, 15, 17, 18, 20, 21, 22, 23, 24, 25, 26, 27, 28, 29, 30, 31, 32, 33,
      40, 41, 42, 16, 19] := by decide
 
-/-- non-vacuity of `ShB`: a VM at `frameIndex = 1` is related to itself with `bp = 0`, `k = 0` -/
-example : ShB 0 0 0 ({ newState #[] #[] #[] 0 0 with frameIndex := 1 } : State)
+theorem exFrames : ∀ j : Nat, j ≤ 0 → FrameSh 0 0 (({ newState #[] #[] #[] 0 0 with frameIndex := 1 } : State).frames[j]!)
+    (({ newState #[] #[] #[] 0 0 with frameIndex := 1 } : State).frames[0 + j]!) := by
+  intro j hj
+  have : j = 0 := by omega
+  subst this
+  show FrameSh 0 0 (Array.replicate frameSize ({} : Frame))[0]! (Array.replicate frameSize ({} : Frame))[0 + 0]!
+  rw [Nat.add_zero, emptyFrames_zero]
+  exact ⟨rfl, rfl, rfl, trivial, rfl, Int.le_refl _⟩
+
+theorem exSh : Sh ({ newState #[] #[] #[] 0 0 with frameIndex := 1 } : State) 0 0 0 0 0 0 ({ newState #[] #[] #[] 0 0 with frameIndex := 1 } : State)
     ({ newState #[] #[] #[] 0 0 with frameIndex := 1 } : State) :=
-  ⟨0, 0, { heap := rfl, codes := rfl, consts := rfl, globals := rfl, modules := rfl, numModules := rfl, ip := rfl,
-           spS := rfl, spT := rfl, curS := rfl, curT := rfl, fiS := rfl, fiT := rfl, errS := rfl, errT := rfl,
-           shapeS := ⟨by simp [newState], by simp [newState, emptyFrames]⟩,
-           shapeT := ⟨by simp [newState], by simp [newState, emptyFrames]⟩,
-           kLt := by decide,
-           frame := ⟨rfl, rfl, by show (Array.replicate frameSize ({} : Frame))[0]!.bp = 0; rw [emptyFrames_zero],
-                     by show (Array.replicate frameSize ({} : Frame))[0]!.bp = 0; rw [emptyFrames_zero],
-                     by show (Array.replicate frameSize ({} : Frame))[0]!.handlers = none; rw [emptyFrames_zero],
-                     by show (Array.replicate frameSize ({} : Frame))[0]!.handlers = none; rw [emptyFrames_zero], rfl⟩,
-           stack := fun i hi => by omega }, Int.le_refl _, Nat.le_refl _⟩
+  { heap := rfl, codes := rfl, consts := rfl, globals := rfl, modules := rfl, numModules := rfl, ip := rfl,
+    spS := rfl, spT := rfl, curS := rfl, curT := rfl, fiS := rfl, fiT := rfl, errS := rfl, errT := rfl,
+    shapeS := ⟨by simp [newState], by simp [newState, emptyFrames]⟩,
+    shapeT := ⟨by simp [newState], by simp [newState, emptyFrames]⟩,
+    kLt := by decide,
+    frames := exFrames,
+    ips := fun j hj => (by omega),
+    bp0 := (by show (Array.replicate frameSize ({} : Frame))[0]!.bp = 0; rw [emptyFrames_zero]),
+    bpPos := fun j h1 hj => (by omega),
+    stack := fun i hi => (by omega),
+    room := (by decide),
+    lowF := fun _ _ => rfl,
+    lowS := fun _ _ => rfl }
+
+/-- non-vacuity of `ShB`: a VM at `frameIndex = 1` is related to itself with `bp = 0`, `k = 0`, depth 0 -/
+example : ShB ({ newState #[] #[] #[] 0 0 with frameIndex := 1 } : State) 0 0 0 ({ newState #[] #[] #[] 0 0 with frameIndex := 1 } : State)
+    ({ newState #[] #[] #[] 0 0 with frameIndex := 1 } : State) :=
+  ⟨0, 0, 0, exSh, Int.le_refl _, Nat.le_refl _⟩
 
 /-- The full statement of C14 over the model (NOT proved): for every function value `fa`, every
     accepted argument list, every pool history `w` and every caller state `s` whose module cache
@@ -472,9 +544,12 @@ example : ShB 0 0 0 ({ newState #[] #[] #[] 0 0 with frameIndex := 1 } : State)
     the module cache that the in-script call `CALL numArgs 0` of `fa` from frame k of the caller
     yields when run to the matching RETURN.  Proved parts: `acquire_complete`, `release_zeroes`,
     `pool_fresh`, `pool_acquire_eq_new`, `pool_release_inv`, `acquire_fields`, `initLocals_eq_callbind`,
-    `prologue_eq_callbind` (the entries), `frame_shift_partial` (one covered instruction).  Missing:
-    CALL / RETURN / THROW and the handler opcodes, the iteration of `frame_shift_partial`
-    over the loop, the epilogue (`resultValue`, `invResOf`) and the host-aware loop `loopI`; as stated
+    `prologue_eq_callbind` (the entries), `frame_shift` (one instruction, every opcode), `throw_shift_partial`,
+    `steps_shift`, `invoke_eq_call_partial` (the run of the function up to and including the instruction that ends
+    it), `result_value_deref`.  Missing: spread calls (`flags ≠ 0`), host-function callees and imports (the
+    host-aware loop `loopI`), the abort flag and the `recover` wrapper of `Run` (`runFrom.go`), `iterInvoke`
+    plumbing (`mergeBack`, pool, `invResOf`), and — below the boundary — that the parent's unwinding from frame
+    `k - 1` equals what `failWith` does in the caller when `Invoke` returns the error (live parts only); as stated
     (no resource hypothesis) it is false at the stack / frame limits, where the child has more room. -/
 def C14_full : Prop :=
   ∀ (F : FloatOps) (cfg : HostCfg) (root s : State) (w : World) (fa : Addr) (args : List V) (depth fuel : Nat),
@@ -493,5 +568,530 @@ theorem acquire_fields (root caller child : State) (callee : Addr) :
     c.consts = root.consts ∧ c.numModules = root.numModules ∧ c.modules = root.modules ∧
     c.noPanic = root.noPanic ∧ c.mainFn = callee ∧ c.heap = caller.heap := by
   simp [acquireFrom]
+
+/-! ### the real loop, the host-aware loop, the epilogue -/
+
+/-- **invoke_loop_partial.**  `invoke_eq_call_partial` for the child's real loop `loopF` (`loop()`: abort check before every
+    instruction): if it ends within `n` instructions without the VM having been aborted, it ended at its instruction
+    `m + 1` and the parent's instruction `m + 1` ends as `EndQ` says. -/
+theorem invoke_loop_partial (F : FloatOps) (T0 : State) (bp k : Nat) (hk : 1 ≤ k) (hbp : 1 ≤ bp) (n : Nat) (s t : State)
+    (h : ∃ d, ShB T0 bp k d s t) (hok : OkRun F n s t) (s' : State)
+    (hs : exec (loopF F n) s = (.ok (some ()), s')) (hna : s'.err ≠ some .aborted) :
+    ∃ m s0, m < n ∧ runSteps F m s = some (.next, s0) ∧ exec (step F) s0 = (.ok .ret, s') ∧
+      ∀ r0 t0, runSteps F m t = some (r0, t0) → r0 = .next ∧
+        ∀ r' t', exec (step F) t0 = (.ok r', t') → EndQ T0 bp k r' s' t' :=
+  UgoVerif.Proofs.Shift.invoke_loop_partial F hk hbp n s t h hok s' hs hna
+
+/-- **host_loop_of_loop.**  The host-aware loop `loopI` (VM/Invoke.lean: the loop of a VM whose globals may hold Go
+    functions) of a child whose loop ends normally is that loop: an instruction that ends normally is never the call of
+    a host function (`xOpCallObject` of a host object is outside `step`). -/
+theorem host_loop_of_loop (F : FloatOps) (cfg : HostCfg) (root : State) (rc : ChildRun) (n : Nat) (w : World) (s s' : State)
+    (h : exec (loopF F n) s = (.ok (some ()), s')) : loopI F cfg root rc n w s = (.ok (some ()), w, s') :=
+  loopI_of_loopF F cfg root rc n w s s' h
+
+/-- **epilogue_error.**  `Run` after a loop that ended with `vm.err = e` returns `e` (what `Invoke` hands to Go). -/
+theorem epilogue_error (s : State) (e : VmErr) (herr : s.err = some e) :
+    (runFrom.finish (exec clearCurrentFrame s).2).1 = .error e := finish_error s e herr
+
+/-! ### one invocation that returns a value: `C14_full` with its restrictions named -/
+
+def pushArgs (fa : Addr) (args : List V) : M Unit := do
+  pushV (.cfun fa)
+  for a in args do pushV a
+
+/-- only stack and sp differ from `s` -/
+def StackOnly (s u : State) : Prop := u = { s with stack := u.stack, sp := u.sp }
+
+theorem keeps_pushV_so (s : State) (v : V) : Keeps (StackOnly s) (pushV v) := by
+  unfold pushV stackSet setSp getSp
+  refine Keeps.bind (Keeps.bind Keeps.getS (fun _ => Keeps.pure _)) (fun sp => ?_)
+  refine Keeps.bind ?_ (fun _ => ?_)
+  · split
+    · exact Keeps.panic _
+    · exact Keeps.modS (fun u h => by unfold StackOnly at h ⊢; rw [h])
+  · exact Keeps.modS (fun u h => by unfold StackOnly at h ⊢; rw [h])
+
+theorem pushArgs_frame (fa : Addr) (args : List V) (s p : State) (h : exec (pushArgs fa args) s = (.ok (), p)) :
+    StackOnly s p := by
+  have hk : Keeps (StackOnly s) (pushArgs fa args) := by
+    unfold pushArgs
+    refine Keeps.bind (keeps_pushV_so s _) (fun _ => ?_)
+    refine Keeps.bind (Keeps.forIn_list _ _ _ (fun a b => Keeps.bind (keeps_pushV_so s a) (fun _ => Keeps.pure _))) (fun _ => Keeps.pure _)
+  have := hk.elim s rfl
+  rw [h] at this
+  exact this
+
+theorem inScriptCall_eq (F : FloatOps) (fuel : Nat) (s : State) (fa : Addr) (args : List V) (p p0 : State)
+    (h1 : exec (pushArgs fa args) s = (.ok (), p)) (h2 : exec (callCompiled fa args.length 0) p = (.ok (.ok ()), p0)) :
+    inScriptCall F fuel s fa args = inScriptCall.go F s.frameIndex fuel p0 := by
+  unfold inScriptCall
+  have h1' : StateT.run (ExceptT.run (pushArgs fa args)) s = (.ok (), p) := h1
+  unfold pushArgs at h1'
+  simp only [h1']
+  have h2' : StateT.run (ExceptT.run (callCompiled fa (↑args.length) 0)) p = (.ok (.ok ()), p0) := h2
+  simp only [h2']
+
+theorem runSteps_globals (F : FloatOps) : ∀ (n : Nat) (s : State) (r : Ctl) (s' : State),
+    runSteps F n s = some (r, s') → s'.globals = s.globals := by
+  intro n
+  induction n with
+  | zero =>
+    intro s r s' h
+    simp only [runSteps, Option.some.injEq, Prod.mk.injEq] at h
+    rw [← h.2]
+  | succ n ih =>
+    intro s r s' h
+    simp only [runSteps] at h
+    have hk := (gkeeps_step (G := s.globals) F).elim s rfl
+    rcases e1 : exec (step F) s with ⟨r1, s1⟩
+    rw [e1] at h hk
+    cases r1 with
+    | error e => simp at h
+    | ok c =>
+      cases c with
+      | ret =>
+        simp only [Option.some.injEq, Prod.mk.injEq] at h
+        rw [← h.2]; exact hk
+      | next =>
+        simp only at h
+        rw [ih s1 r s' h]; exact hk
+
+theorem runSteps_prefix (F : FloatOps) : ∀ (m : Nat) (s sm : State), runSteps F m s = some (.next, sm) →
+    ∀ j, j ≤ m → ∃ sj, runSteps F j s = some (.next, sj) := by
+  intro m
+  induction m with
+  | zero =>
+    intro s sm h j hj
+    have : j = 0 := by omega
+    subst this
+    exact ⟨s, rfl⟩
+  | succ m ih =>
+    intro s sm h j hj
+    cases j with
+    | zero => exact ⟨s, rfl⟩
+    | succ j =>
+      simp only [runSteps] at h ⊢
+      rcases e1 : exec (step F) s with ⟨r1, s1⟩
+      rw [e1] at h
+      cases r1 with
+      | error e => simp at h
+      | ok c =>
+        cases c with
+        | ret => simp at h
+        | next =>
+          simp only at h ⊢
+          exact ih s1 sm h j (by omega)
+
+/-- the in-script run over `m` instructions that all continue above the caller's frame -/
+theorem go_of_steps (F : FloatOps) (base : Int) : ∀ (m fuel : Nat) (t tm : State), runSteps F m t = some (.next, tm) →
+    (∀ j tj, 1 ≤ j → j ≤ m → runSteps F j t = some (.next, tj) → base < tj.frameIndex) →
+    inScriptCall.go F base (m + fuel) t = inScriptCall.go F base fuel tm := by
+  intro m
+  induction m with
+  | zero =>
+    intro fuel t tm h _
+    simp only [runSteps, Option.some.injEq, Prod.mk.injEq] at h
+    rw [← h.2, Nat.zero_add]
+  | succ m ih =>
+    intro fuel t tm h hfi
+    simp only [runSteps] at h
+    rcases e1 : exec (step F) t with ⟨r1, t1⟩
+    rw [e1] at h
+    cases r1 with
+    | error e => simp at h
+    | ok c =>
+      cases c with
+      | ret => simp at h
+      | next =>
+        simp only at h
+        have e : m + 1 + fuel = (m + fuel) + 1 := by omega
+        rw [e, inScriptCall.go]
+        have e1' : StateT.run (ExceptT.run (step F)) t = (.ok .next, t1) := e1
+        simp only [e1']
+        have h1 : base < t1.frameIndex := hfi 1 t1 (by omega) (by omega) (by simp only [runSteps, e1])
+        have h1' : ¬ t1.frameIndex ≤ base := by omega
+        rw [if_neg h1']
+        refine ih fuel t1 tm h ?_
+        intro j tj hj1 hj2 hr
+        refine hfi (j + 1) tj (by omega) (by omega) ?_
+        simp only [runSteps, e1]
+        exact hr
+
+theorem iterInvoke_one (rc : ChildRun) (cfg : HostCfg) (rootNow s : State) (fa : Addr) (args : List V) (fuel : Nat)
+    (w w1 w2 : World) (out : Outcome) (child child' : State)
+    (hacq : poolAcquire w { rootNow with modules := if s.modules.size ≥ s.numModules then s.modules else #[] } s fa cfg.pooled
+      = (child, w1))
+    (hab : child.abort = false)
+    (hrun : rc fuel w1 s.globals args child = (out, w2, child')) :
+    ∃ w', iterInvoke rc cfg rootNow fa args fuel false 1 w s none [] = (invResOf out, w', mergeBack s child') := by
+  simp only [iterInvoke, hacq, hab, Bool.false_eq_true, if_false, hrun]
+  cases h : invResOf out with
+  | value v =>
+    simp only
+    by_cases hr : cfg.reuse = true
+    · simp only [hr, if_true, iterInvoke, List.nil_append, Bool.false_eq_true, if_false]
+      exact ⟨_, rfl⟩
+    · simp only [hr, if_false, iterInvoke, List.nil_append, Bool.false_eq_true]
+      exact ⟨_, rfl⟩
+  | error e => exact ⟨_, rfl⟩
+  | goPanic m => exact ⟨_, rfl⟩
+  | stop o => exact ⟨_, rfl⟩
+
+theorem runSteps_snoc (F : FloatOps) : ∀ (m : Nat) (t tm : State), runSteps F m t = some (.next, tm) →
+    runSteps F (m + 1) t = (match exec (step F) tm with
+      | (.ok .next, t') => some (.next, t')
+      | (.ok .ret, t') => some (.ret, t')
+      | (.error _, _) => none) := by
+  intro m
+  induction m with
+  | zero =>
+    intro t tm h
+    simp only [runSteps, Option.some.injEq, Prod.mk.injEq] at h
+    rw [← h.2]
+    simp only [runSteps]
+    rcases exec (step F) t with ⟨r, t'⟩
+    cases r with
+    | error e => rfl
+    | ok c => cases c <;> rfl
+  | succ m ih =>
+    intro t tm h
+    simp only [runSteps] at h
+    rcases e1 : exec (step F) t with ⟨r1, t1⟩
+    rw [e1] at h
+    cases r1 with
+    | error e => simp at h
+    | ok c =>
+      cases c with
+      | ret => simp at h
+      | next =>
+        simp only at h
+        have := ih t1 tm h
+        conv => lhs; unfold runSteps
+        simp only [e1]
+        exact this
+
+theorem finish_value_state (s : State) (herr : s.err = none) (hsp : 1 ≤ s.sp ∧ s.sp < (stackSize : Int))
+    (hnb : ∀ a, s.stack[(s.sp - 1).toNat]! ≠ .box a) :
+    runFrom.finish (exec clearCurrentFrame s).2 = (.value (s.stack[(s.sp - 1).toNat]!), (exec clearCurrentFrame s).2) := by
+  have e : (exec clearCurrentFrame s).2 =
+      { s with frames := s.frames.modify s.curFrame (fun f => { f with free := none, fn := none, handlers := none }) } := rfl
+  unfold runFrom.finish
+  have h1 : (exec clearCurrentFrame s).2.err = none := by rw [e]; exact herr
+  have h2 : (exec clearCurrentFrame s).2.sp < (stackSize : Int) := by rw [e]; exact hsp.2
+  rw [h1]
+  simp only [h2, if_true]
+  have hsp' : 1 ≤ s.sp ∧ s.sp ≤ (stackSize : Int) := ⟨hsp.1, by have := hsp.2; omega⟩
+  have hv := resultValue_of_slot (exec clearCurrentFrame s).2 (by rw [e]; exact hsp')
+    (by rw [e]; exact hnb)
+  have hr' : resultValue.run.run (exec clearCurrentFrame s).2 = _ := hv
+  rw [hr']
+  rw [e]
+
+theorem poolAcquire_fresh (w : World) (root' s : State) (fa : Addr) (pooled : Bool)
+    (hw : ∀ c ∈ w.idle, ∃ u, c = releaseVM u) :
+    ∃ w1, poolAcquire w root' s fa pooled = (acquireFrom root' s (zeroVM s) fa, w1) := by
+  unfold poolAcquire
+  cases pooled with
+  | false => exact ⟨w, rfl⟩
+  | true =>
+    simp only [if_true]
+    cases h : w.idle with
+    | nil => exact ⟨w, rfl⟩
+    | cons c rest =>
+      obtain ⟨u, rfl⟩ := hw c (by simp [h])
+      exact ⟨{ w with idle := rest }, by simp [pool_fresh]⟩
+
+theorem zeroVM_shape (s : State) : Shape (zeroVM s) := ⟨by simp [zeroVM], by simp [zeroVM, emptyFrames]⟩
+
+set_option maxHeartbeats 1600000 in
+/-- **C14_value_restricted** (the statement of `C14_full`, for one invocation that RETURNS a value, with its
+    restrictions named).  `s` is the VM that runs the Go function; the Go side does
+    `NewInvoker(vm, f).Invoke(args…)` — any configuration `cfg` (pooled or not, reuse or not), any pool history `w`
+    that holds released VMs only, at any invocation depth ≥ 1; the script side pushes `f` and `args` (state `p`) and
+    executes `CALL #args 0`, then runs until the frame index is back.  Hypotheses, all explicit:
+    * the root's constants / module count are the caller's, the caller's module cache is complete (it is inside `Run`);
+    * `p` satisfies the entry conditions of `prologue_eq_callbind` (accepted arity, the caller is not `f` itself in tail
+      position, room for the frame and the locals);
+    * the child's loop `loopF` ends normally (`hloop`: no Go panic, nothing outside the model — hence no call of a host
+      function and no builtin outside the modelled ones — within `fuel` instructions) with `vm.err = nil` (`hret`: the
+      function returned), the result is not a raw `*ObjectPtr` (`hnb`) and `sp < StackSize` (`hspl`: `Run` answers
+      ErrStackOverflow otherwise — a function with 2047 locals);
+    * every instruction met satisfies `StepOk` / `CallRoom` (`hok`: no spread calls; the parent has a free frame at
+      every call) and the parent does not panic / leave the model (`hpar`) — at the stack limit the child has more room.
+    Then `Invoke` returns the value `v` that the in-script call leaves in the call's slot, and heap, globals and module
+    cache of the two final states are equal. -/
+theorem C14_value_restricted (F : FloatOps) (cfg : HostCfg) (root s p : State) (w : World) (fa ci : Nat)
+    (free : Option (List Addr)) (args : List V) (dpt fuel : Nat)
+    (hw : ∀ c ∈ w.idle, ∃ u, c = releaseVM u)
+    (hrc : root.consts = s.consts) (hrn : root.numModules = s.numModules) (hshared : s.numModules ≤ s.modules.size)
+    (hpush : exec (pushArgs fa args) s = (.ok (), p))
+    (hfn : p.heap[fa]? = some (.fn ci free)) (hg : p.globals ≠ .nil) (herr : p.err = none) (hshp : Shape p)
+    (hargs : argsOnStack p args.length = args)
+    (hacc : accepted (p.codes[ci]!).numParams (p.codes[ci]!).variadic args.length)
+    (hself : (p.frames[p.curFrame]!).fn ≠ some fa)
+    (hfi : 1 ≤ p.frameIndex ∧ p.frameIndex + 1 ≤ (frameSize : Int) - 1)
+    (hbp : 1 ≤ p.sp - args.length) (hsp : p.sp ≤ (stackSize : Int))
+    (hroom : p.sp - args.length + (p.codes[ci]!).numLocals ≤ (stackSize : Int))
+    (hnl : (p.codes[ci]!).numParams ≤ (p.codes[ci]!).numLocals)
+    (c0 p0 c1 : State)
+    (hc0 : exec (prologue s.globals args) (acquireFrom { root with modules := s.modules } s (zeroVM s) fa) = (.ok (), c0))
+    (hp0 : exec (callCompiled fa args.length 0) p = (.ok (.ok ()), p0))
+    (hloop : exec (loopF F fuel) c0 = (.ok (some ()), c1))
+    (hok : OkRun F fuel c0 p0)
+    (hpar : ∀ j, j ≤ fuel → runSteps F j p0 ≠ none)
+    (hret : c1.err = none) (hspl : c1.sp < (stackSize : Int)) (hnb : ∀ a, c1.stack[(c1.sp - 1).toNat]! ≠ .box a) :
+    ∃ v w' s' sIn,
+      iterInvoke (runAt F cfg root (dpt + 1)) cfg root fa args fuel false 1 w s none [] = (.value v, w', s') ∧
+      inScriptCall F fuel s fa args = (.ok v, sIn) ∧
+      s'.heap = sIn.heap ∧ s'.globals = sIn.globals ∧ s'.modules = sIn.modules := by
+  have hso := pushArgs_frame fa args s p hpush
+  unfold StackOnly at hso
+  have hph : p.heap = s.heap := by rw [hso]
+  have hpc : p.codes = s.codes := by rw [hso]
+  have hpk : p.consts = s.consts := by rw [hso]
+  have hpm : p.modules = s.modules := by rw [hso]
+  have hpn : p.numModules = s.numModules := by rw [hso]
+  have hpg : p.globals = s.globals := by rw [hso]
+  have hpf : p.frameIndex = s.frameIndex := by rw [hso]
+  -- the two entries
+  obtain ⟨c0', p0', h1, h2, hsh, _⟩ := prologue_eq_callbind
+    (acquireFrom { root with modules := s.modules } s (zeroVM s) fa) p fa ci free args hfn
+    (by rw [hph]; rfl) (by rw [hpc]; rfl) (by rw [hpk]; exact hrc) (by rw [hpm]; rfl) (by rw [hpn]; exact hrn) rfl
+    (by rw [hpn, hpm]; exact hshared) hg herr ⟨(zeroVM_shape s).stack, (zeroVM_shape s).frames⟩ hshp hargs hacc hself ⟨by omega, hfi.2⟩ (by omega) hsp hroom hnl
+  rw [hpg, hc0] at h1
+  rw [hp0] at h2
+  simp only [Prod.mk.injEq, Except.ok.injEq] at h1 h2
+  obtain ⟨_, rfl⟩ := h1
+  obtain ⟨_, rfl⟩ := h2
+  -- the child's loop
+  obtain ⟨m, cm, hm, hcm, hlast, hparent⟩ := UgoVerif.Proofs.Shift.invoke_loop_partial F (by omega) (by omega) fuel c0 p0 ⟨0, hsh⟩ hok c1 hloop
+    (by rw [hret]; simp)
+  -- the parent after m instructions
+  rcases hpm' : runSteps F m p0 with _ | ⟨r0, pm⟩
+  · exact absurd hpm' (hpar m (by omega))
+  obtain ⟨hr0, hfin⟩ := hparent r0 pm hpm'
+  subst hr0
+  have hsn := runSteps_snoc F m p0 pm hpm'
+  rcases e1 : exec (step F) pm with ⟨r1, p'⟩
+  rw [e1] at hsn
+  cases r1 with
+  | error e => exact absurd hsn (hpar (m + 1) (by omega))
+  | ok r' =>
+    have hend := hfin r' p' e1
+    rcases hend with hq | ⟨e, he, _⟩ | ⟨_, ⟨msg, he, _⟩, _⟩
+    rotate_left
+    · rw [hret] at he; cases he
+    · rw [hret] at he; cases he
+    obtain ⟨_, hr', hh, hgl, hmo, _, _, _, hfk, hspk, hsp1, hval, hsz, _, _⟩ := hq
+    subst hr'
+    -- the Invoker side
+    obtain ⟨w1, hacq⟩ := poolAcquire_fresh w { root with modules := s.modules } s fa cfg.pooled hw
+    have hfv := finish_value_state c1 hret ⟨hsp1, hspl⟩ hnb
+    have hrun : runAt F cfg root (dpt + 1) fuel w1 s.globals args (acquireFrom { root with modules := s.modules } s (zeroVM s) fa) =
+        (.value (c1.stack[(c1.sp - 1).toNat]!), w1, (exec clearCurrentFrame c1).2) := by
+      show runWithW F cfg root (runAt F cfg root dpt) fuel w1 s.globals args _ = _
+      rw [runWithW_of_loop F cfg root _ fuel w1 s.globals args _ c0 c1 hc0 hloop, hfv]
+    have hshr : (if s.modules.size ≥ s.numModules then s.modules else #[]) = s.modules := by
+      rw [if_pos hshared]
+    obtain ⟨w', hit⟩ := iterInvoke_one (runAt F cfg root (dpt + 1)) cfg root s fa args fuel w w1 w1 _ _ _
+      (by rw [hshr]; exact hacq) rfl hrun
+    refine ⟨c1.stack[(c1.sp - 1).toNat]!, w', _, p', hit, ?_, ?_, ?_, ?_⟩
+    · -- the in-script side
+      rw [inScriptCall_eq F fuel s fa args p p0 hpush hp0]
+      have ef : fuel = m + ((fuel - m - 1) + 1) := by omega
+      rw [ef, go_of_steps F s.frameIndex m _ p0 pm hpm' ?_]
+      · rw [inScriptCall.go]
+        have e1' : StateT.run (ExceptT.run (step F)) pm = (.ok .next, p') := e1
+        simp only [e1']
+        have hle : p'.frameIndex ≤ s.frameIndex := by rw [hfk, ← hpf]; omega
+        rw [if_pos hle]
+        have hidx : (p'.sp - 1).toNat < p'.stack.size := by
+          rw [hsz, hspk]
+          have : (0 : Int) ≤ p.sp - args.length := by omega
+          simp only [stackSize] at hroom ⊢
+          omega
+        rw [Array.getElem?_eq_getElem hidx]
+        simp only
+        rw [hval, getElem!_pos p'.stack _ hidx]
+      · intro j tj hj1 hj2 hr
+        obtain ⟨cj, hcj⟩ := runSteps_prefix F m c0 cm hcm j hj2
+        have ej : fuel = j + (fuel - j) := by omega
+        rw [ej] at hok
+        obtain ⟨_, ⟨d, H, N, a, hd, _, _⟩, _⟩ := UgoVerif.Proofs.Shift.steps_shift F (by omega) (by omega) j (fuel - j) c0 p0 ⟨0, hsh⟩ hok cj hcj .next tj hr
+        have := hd.fiT
+        rw [← hpf]
+        omega
+    · show c1.heap = p'.heap
+      exact hh
+    · show s.globals = p'.globals
+      have g1 := runSteps_globals F (m + 1) p0 .next p' (by rw [hsn])
+      have g2 := (gkeeps_callCompiled (G := p.globals) fa args.length 0).elim p rfl
+      rw [hp0] at g2
+      rw [g1, g2, hpg]
+    · show (if s.modules.size ≥ s.numModules then c1.modules else s.modules) = p'.modules
+      rw [if_pos hshared]
+      exact hmo
+
+/-! ### one invocation that ends with an error nobody catches -/
+
+/-- the frame search of `throw` through frames without handlers: nothing found; heap, globals, module cache and
+    `vm.err` untouched -/
+theorem searchFrames_none : ∀ (j : Nat) (u : State), j ≤ frameSize → (∀ i, i < j → hasHandler (u.frames[i]!) = false) →
+    ∃ u', exec (searchFrames j) u = (.ok none, u') ∧ u'.heap = u.heap ∧ u'.globals = u.globals ∧ u'.modules = u.modules ∧
+      u'.err = u.err := by
+  intro j
+  induction j with
+  | zero =>
+    intro u _ _
+    rw [searchFrames]
+    exact ⟨u, rfl, rfl, rfl, rfl, rfl⟩
+  | succ j ih =>
+    intro u hj hnh
+    rw [exec_searchFrames_succ]
+    have c1 : ¬ j ≥ frameSize := by omega
+    have c2 : ¬ (hasHandler (u.frames[j]!) = true) := by rw [hnh j (by omega)]; simp
+    rw [if_neg c1, if_neg c2]
+    obtain ⟨u', h1, h2, h3, h4, h5⟩ := ih { u with frames := u.frames.modify j fun f => { f with free := none, fn := none } }
+      (by omega) (by
+        intro i hi
+        show hasHandler ((u.frames.modify j _)[i]!) = false
+        rw [getElem!_modify]
+        have c : ¬ (j = i ∧ i < u.frames.size) := fun c => by omega
+        rw [if_neg c]
+        exact hnh i (by omega))
+    exact ⟨u', h1, h2, h3, h4, h5⟩
+
+theorem finish_error_state (s : State) (e : VmErr) (herr : s.err = some e) :
+    runFrom.finish (exec clearCurrentFrame s).2 = (.error e, (exec clearCurrentFrame s).2) := by
+  have e' : (exec clearCurrentFrame s).2 =
+      { s with frames := s.frames.modify s.curFrame (fun f => { f with free := none, fn := none, handlers := none }) } := rfl
+  unfold runFrom.finish
+  have h1 : (exec clearCurrentFrame s).2.err = some e := by rw [e']; exact herr
+  rw [h1]
+
+set_option maxHeartbeats 1600000 in
+/-- **C14_error_restricted** (the statement of `C14_full` for one invocation that ends with an uGO error which neither the
+    function nor — `hnh` — any frame of the caller catches).  Same setting and hypotheses as `C14_value_restricted`,
+    with `vm.err = e` at the end of the child's loop instead of `nil`.  Then `Invoke` returns the error `e` and the
+    in-script call ends the parent's loop with `vm.err = e` — the SAME `*RuntimeError` object —, and heap, globals and
+    module cache of the two final states are equal.  (When a frame of the caller has a handler the in-script run goes
+    on inside that handler; `inScriptCall` then reports a value: not comparable, see `throw_shift_partial`.) -/
+theorem C14_error_restricted (F : FloatOps) (cfg : HostCfg) (root s p : State) (w : World) (fa ci : Nat)
+    (free : Option (List Addr)) (args : List V) (dpt fuel : Nat) (e : Addr)
+    (hw : ∀ c ∈ w.idle, ∃ u, c = releaseVM u)
+    (hrc : root.consts = s.consts) (hrn : root.numModules = s.numModules) (hshared : s.numModules ≤ s.modules.size)
+    (hpush : exec (pushArgs fa args) s = (.ok (), p))
+    (hfn : p.heap[fa]? = some (.fn ci free)) (hg : p.globals ≠ .nil) (herr : p.err = none) (hshp : Shape p)
+    (hargs : argsOnStack p args.length = args)
+    (hacc : accepted (p.codes[ci]!).numParams (p.codes[ci]!).variadic args.length)
+    (hself : (p.frames[p.curFrame]!).fn ≠ some fa)
+    (hfi : 1 ≤ p.frameIndex ∧ p.frameIndex + 1 ≤ (frameSize : Int) - 1)
+    (hbp : 1 ≤ p.sp - args.length) (hsp : p.sp ≤ (stackSize : Int))
+    (hroom : p.sp - args.length + (p.codes[ci]!).numLocals ≤ (stackSize : Int))
+    (hnl : (p.codes[ci]!).numParams ≤ (p.codes[ci]!).numLocals)
+    (c0 p0 c1 : State)
+    (hc0 : exec (prologue s.globals args) (acquireFrom { root with modules := s.modules } s (zeroVM s) fa) = (.ok (), c0))
+    (hp0 : exec (callCompiled fa args.length 0) p = (.ok (.ok ()), p0))
+    (hloop : exec (loopF F fuel) c0 = (.ok (some ()), c1))
+    (hok : OkRun F fuel c0 p0)
+    (hpar : ∀ j, j ≤ fuel → runSteps F j p0 ≠ none)
+    (hrete : c1.err = some (.rt e))
+    (hnh : ∀ j, j < p.frameIndex.toNat → hasHandler (p0.frames[j]!) = false) :
+    ∃ w' s' sIn,
+      iterInvoke (runAt F cfg root (dpt + 1)) cfg root fa args fuel false 1 w s none [] = (.error (.rt e), w', s') ∧
+      inScriptCall F fuel s fa args = (.error (.rt e), sIn) ∧
+      s'.heap = sIn.heap ∧ s'.globals = sIn.globals ∧ s'.modules = sIn.modules := by
+  have hso := pushArgs_frame fa args s p hpush
+  unfold StackOnly at hso
+  have hph : p.heap = s.heap := by rw [hso]
+  have hpc : p.codes = s.codes := by rw [hso]
+  have hpk : p.consts = s.consts := by rw [hso]
+  have hpm : p.modules = s.modules := by rw [hso]
+  have hpn : p.numModules = s.numModules := by rw [hso]
+  have hpg : p.globals = s.globals := by rw [hso]
+  have hpf : p.frameIndex = s.frameIndex := by rw [hso]
+  obtain ⟨c0', p0', h1, h2, hsh, _⟩ := prologue_eq_callbind
+    (acquireFrom { root with modules := s.modules } s (zeroVM s) fa) p fa ci free args hfn
+    (by rw [hph]; rfl) (by rw [hpc]; rfl) (by rw [hpk]; exact hrc) (by rw [hpm]; rfl) (by rw [hpn]; exact hrn) rfl
+    (by rw [hpn, hpm]; exact hshared) hg herr ⟨(zeroVM_shape s).stack, (zeroVM_shape s).frames⟩ hshp hargs hacc hself
+    ⟨by omega, hfi.2⟩ (by omega) hsp hroom hnl
+  rw [hpg, hc0] at h1
+  rw [hp0] at h2
+  simp only [Prod.mk.injEq, Except.ok.injEq] at h1 h2
+  obtain ⟨_, rfl⟩ := h1
+  obtain ⟨_, rfl⟩ := h2
+  obtain ⟨m, cm, hm, hcm, hlast, hparent⟩ := UgoVerif.Proofs.Shift.invoke_loop_partial F (by omega) (by omega) fuel c0 p0 ⟨0, hsh⟩ hok c1 hloop
+    (by rw [hrete]; simp)
+  rcases hpm' : runSteps F m p0 with _ | ⟨r0, pm⟩
+  · exact absurd hpm' (hpar m (by omega))
+  obtain ⟨hr0, hfin⟩ := hparent r0 pm hpm'
+  subst hr0
+  have hsn := runSteps_snoc F m p0 pm hpm'
+  rcases e1 : exec (step F) pm with ⟨r1, p'⟩
+  rw [e1] at hsn
+  cases r1 with
+  | error x => exact absurd hsn (hpar (m + 1) (by omega))
+  | ok r' =>
+    have hend := hfin r' p' e1
+    rcases hend with hq | ⟨e', he, n, u, hu1, hu2, hu3, hu4, hu5, hu6, hu7⟩ | ⟨_, ⟨msg, he, _⟩, _⟩
+    · obtain ⟨_, _, _, _, _, hce, _⟩ := hq
+      rw [hrete] at hce; cases hce
+    rotate_left
+    · rw [hrete] at he; cases he
+    rw [hrete] at he
+    simp only [Option.some.injEq, VmErr.rt.injEq] at he
+    subst he
+    -- the parent: no handler below frame k
+    have hkf : p.frameIndex.toNat ≤ frameSize := by have := hfi.2; simp only [frameSize] at this ⊢; omega
+    obtain ⟨u', hs1, hs2, hs3, hs4, hs5⟩ := searchFrames_none p.frameIndex.toNat u hkf
+      (fun i hi => by rw [hu5 i hi]; exact hnh i hi)
+    have hesc : exec (escBelow n p.frameIndex.toNat e) u = (.ok .ret, { u' with err := some (.rt e) }) := by
+      unfold escBelow
+      rw [exec_bind, exec_throwBelow, hs1]
+      simp only [exec_bind, exec_modS, exec_pure]
+    rw [hesc] at hu7
+    simp only [Prod.mk.injEq, Except.ok.injEq] at hu7
+    obtain ⟨hr', hp'⟩ := hu7
+    subst hr'
+    subst hp'
+    -- the Invoker side
+    obtain ⟨w1, hacq⟩ := poolAcquire_fresh w { root with modules := s.modules } s fa cfg.pooled hw
+    have hfv := finish_error_state c1 (.rt e) hrete
+    have hrun : runAt F cfg root (dpt + 1) fuel w1 s.globals args (acquireFrom { root with modules := s.modules } s (zeroVM s) fa) =
+        (.error (.rt e), w1, (exec clearCurrentFrame c1).2) := by
+      show runWithW F cfg root (runAt F cfg root dpt) fuel w1 s.globals args _ = _
+      rw [runWithW_of_loop F cfg root _ fuel w1 s.globals args _ c0 c1 hc0 hloop, hfv]
+    have hshr : (if s.modules.size ≥ s.numModules then s.modules else #[]) = s.modules := by
+      rw [if_pos hshared]
+    obtain ⟨w', hit⟩ := iterInvoke_one (runAt F cfg root (dpt + 1)) cfg root s fa args fuel w w1 w1 _ _ _
+      (by rw [hshr]; exact hacq) rfl hrun
+    refine ⟨w', _, { u' with err := some (.rt e) }, hit, ?_, ?_, ?_, ?_⟩
+    · rw [inScriptCall_eq F fuel s fa args p p0 hpush hp0]
+      have ef : fuel = m + ((fuel - m - 1) + 1) := by omega
+      rw [ef, go_of_steps F s.frameIndex m _ p0 pm hpm' ?_]
+      · rw [inScriptCall.go]
+        have e1' : StateT.run (ExceptT.run (step F)) pm = (.ok .ret, { u' with err := some (.rt e) }) := e1
+        simp only [e1']
+      · intro j tj hj1 hj2 hr
+        obtain ⟨cj, hcj⟩ := runSteps_prefix F m c0 cm hcm j hj2
+        have ej : fuel = j + (fuel - j) := by omega
+        rw [ej] at hok
+        obtain ⟨_, ⟨d, H, N, a, hd, _, _⟩, _⟩ := UgoVerif.Proofs.Shift.steps_shift F (by omega) (by omega) j (fuel - j) c0 p0 ⟨0, hsh⟩ hok cj hcj .next tj hr
+        have := hd.fiT
+        rw [← hpf]
+        omega
+    · show c1.heap = u'.heap
+      rw [hs2, hu1]
+    · show s.globals = u'.globals
+      rw [hs3, hu2]
+      have hsn' := runSteps_snoc F m c0 cm hcm
+      rw [hlast] at hsn'
+      have g1 := runSteps_globals F (m + 1) c0 .ret c1 hsn'
+      have g2 := (gkeeps_callCompiled (G := p.globals) fa args.length 0).elim p rfl
+      rw [hp0] at g2
+      obtain ⟨H, N, a, hsh', _, _⟩ := hsh
+      rw [g1, hsh'.globals, g2, hpg]
+    · show (if s.modules.size ≥ s.numModules then c1.modules else s.modules) = u'.modules
+      rw [if_pos hshared, hs4, hu3]
 
 end UgoVerif.Props.C14
